@@ -82,6 +82,7 @@ func runC06(p *core.Prog, r *core.Result) {
 		"R6.4 wait loop / wake-up discipline of module; data and err are written before loaded is published",
 		"R6.5 module code is executed only by (*module).load, which is reached only from the insert branch of the registry",
 		"R6.6 the cyclic-dependency error of wait is produced only where the chain walk met the waiter",
+		"R6.7 the loader that registered a module publishes its result (done) on every exit, including failures before execution",
 	}
 	r.NotDecided = []string{"termination and deadlock-freedom under every interleaving of the loader goroutines", "equality of the resulting target and flag sets across interleavings"}
 
@@ -301,6 +302,16 @@ func runC06(p *core.Prog, r *core.Result) {
 				}
 			}
 		})
+	}
+
+	// R6.7 the loader that registered a module marks it loaded on every exit (otherwise later waiters sleep forever)
+	for i, ret := range core.ReturnsOf(load) {
+		isDone := func(x ssa.Instruction) bool {
+			c, ok := x.(*ssa.Call)
+			return ok && core.Callee(c) == done && len(c.Call.Args) > 0 && c.Call.Args[0] == ssa.Value(load.Params[0])
+		}
+		skipped := core.BlockReachesAvoiding(load.Blocks[0], ret, isDone)
+		r.Check(!skipped, "R6.7", fmt.Sprintf("dawn.(*module).load#done-on-every-exit:return-%d", i+1), p.InstrPos(ret), "this exit is reached only after m.done(...) published the result", "this exit returns without calling m.done: the module stays registered but never becomes loaded, so every other module that loads it waits forever (Load hangs)")
 	}
 
 	// R6.5 once-only execution
